@@ -153,6 +153,8 @@ class Sim:
         done = handle[1]
         while not done[0]:
             self.step()
+        if len(done) > 1:
+            raise done[1]
         self.settle()
 
     def call_at(self, when, fn, *args):
@@ -163,6 +165,8 @@ class Sim:
         def _cb():
             try:
                 fn(*args)
+            except BaseException as exc:  # noqa: BLE001 - re-raised by run_handle, outside the loop
+                done.append(exc)
             finally:
                 done[0] = True
 
